@@ -39,6 +39,10 @@ def target_dir(worker=0):
     builds per target directory, so sharing one directory would serialise all harnesses."""
     r = repo_dir()
     root = os.path.join(BUILD, "target") if r == "/repo" else os.path.join(BUILD, "target-" + hashlib.sha1(r.encode()).hexdigest()[:10])
+    # VERIF_WORKER_BASE: offset for concurrent dev runs on the same repository copy, so that two runs
+    # never share a worker directory (each run deletes its goto outputs after every harness)
+    if isinstance(worker, int):
+        worker = worker + int(os.environ.get("VERIF_WORKER_BASE", "0") or 0)
     return os.path.join(root, f"w{worker}")
 
 
